@@ -549,7 +549,20 @@ func (st *ggState) buildPoints(d ggDraw, tier string) {
 			}
 		}
 	}
-	// 4. tape-chosen bit flips
+	// 4a. thorough tier: every single-bit flip of every structural integer
+	if tier == "thorough" {
+		for i := range c.fields {
+			f := &c.fields[i]
+			for b := 0; b < 8*f.Width; b++ {
+				off := f.Off + b/8
+				if c.file.BE {
+					off = f.Off + f.Width - 1 - b/8
+				}
+				st.points = append(st.points, ggPoint{kind: "flip", off: off, bit: uint(b % 8), sched: -1})
+			}
+		}
+	}
+	// 4b. tape-chosen bit flips anywhere in the file
 	nflip := 24
 	if tier == "thorough" {
 		nflip = 64
@@ -967,7 +980,11 @@ func runGGUF(t *testing.T, tape *verifsim.Tape, prop, tier string, keepLog bool)
 		}
 		return run.res
 	}
+	t0 := time.Now()
 	total := verifsim.Enumerate(tape, maxPoints, ref, point)
+	if ggDebug && st != nil {
+		fmt.Fprintf(os.Stderr, "gguf-debug: case %v points=%d execs=%d %s\n", time.Since(t0), len(st.points), total.Executions, st.c.describe()[0])
+	}
 	if total.HarnessErr == "" && len(total.Violations) == 0 && st != nil && st.knownFirst != nil {
 		// only known findings were met: report the first one so that the worker counts it;
 		// its tape replays as "reference + that point"
